@@ -77,29 +77,29 @@ def build(config, tier):
         t = "f32" if w == 32 else "f64"
         tr = "quick" if w == 32 else "thorough"
         row = 4 if nn == 16 else 3
-        head = ("unsafe { crate::uf::SQRT%d_MODE = crate::uf::POW2; } let fi = sp::lat3(1); let ui = sp::lat3(1); let ei = sp::lat3(2); let sr = sp::cross3(fi, ui); vk::assume(sp::dot3(sr, sr) != 0);\n"
+        head = ("unsafe { crate::uf::SQRT%d_MODE = crate::uf::POW2; crate::uf::SQRT_PINNED = true; } let fi = sp::lat3(1); let ui = sp::lat3(1); let ei = sp::lat3(1); let sr = sp::cross3(fi, ui); vk::assume(sp::dot3(sr, sr) != 0);\n"
                 "    let f = <%s>::from_array(sp::f%dx3(fi)); let up = <%s>::from_array(sp::f%dx3(ui)); let eye = <%s>::from_array(sp::f%dx3(ei));\n") % (w, V, w, V, w, V, w)
         if normalizes_dir:
-            # Affine look_to normalizes dir itself: restrict the lattice direction to unit axis vectors so that is exact
+            # Affine look_to normalizes dir itself: restrict the lattice direction to unit axis vectors (sqrt(1) is pinned to 1)
             head += "    vk::assume(sp::dot3(fi, fi) == 1);\n"
-        body = head + ("    let m = <%s>::look_to_rh(eye, f, up).to_cols_array(); let k = (1.0 as %s) / crate::uf::sqrt_f%d(sp::dot3(sr, sr) as %s); let ur = sp::cross3(sr, fi);\n"
-                       "    let e = |i: usize, j: usize| m[j * %d + i];\n"
-                       "    check!(%s, \"rows are (s, u, -f)\");\n"
-                       "    check!(e(0, 3) == -(sp::dot3(ei, sr) as %s) * k && e(1, 3) == -(sp::dot3(ei, ur) as %s) * k && e(2, 3) == (sp::dot3(ei, fi) as %s), \"translation (-eye.s, -eye.u, eye.f)\");") % (
-            T, t, w, t, row,
-            " && ".join("e(0, %d) == (sr[%d] as %s) * k && e(1, %d) == (ur[%d] as %s) * k && e(2, %d) == -(fi[%d] as %s)" % (j, j, t, j, j, t, j, j, t) for j in range(3)), t, t, t)
-        obs.append(Ob("c11_%s_%s_look_to_rh" % (config, T.lower()), PROP, body, fn="%s::look_to_rh" % T, kind="lemma", solver="cadical", stubs=["sse", "uf_sqrt%d" % w], cls="lattice", clauses=2, tier=tr,
-                      desc="%s::look_to_rh on lattice eye/dir/up: rows exactly (s, u, -f) with s = (f x up)/|f x up|, u = s x f; translation (-eye.s, -eye.u, eye.f); sqrt uninterpreted over powers of two" % T))
-        body = head + ("    let a = <%s>::look_to_rh(eye, f, up); let k = (1.0 as %s) / crate::uf::sqrt_f%d(sp::dot3(sr, sr) as %s);\n"
-                       "    let o = a.transform_point3(eye).to_array(); let d = a.transform_vector3(f).to_array(); let y = a.transform_vector3(up).to_array();\n"
-                       "    check!(o[0] == 0.0 && o[1] == 0.0 && o[2] == 0.0, \"eye goes to the origin\");\n"
-                       "    check!(d[0] == 0.0 && d[1] == 0.0 && d[2] == -(sp::dot3(fi, fi) as %s), \"view direction goes to -Z\");\n"
-                       "    check!(y[0] == 0.0 && y[1] == (sp::dot3(sr, sr) as %s) * k && y[1] > 0.0, \"up hint goes to the +Y half of the YZ plane\");\n"
-                       "    let l = <%s>::look_to_lh(eye, -f, up).to_cols_array(); let r = a.to_cols_array(); check!(%s, \"look_to_lh(dir) == look_to_rh(-dir)\");\n"
-                       "    let dl = <%s>::look_to_lh(eye, f, up).transform_vector3(f).to_array(); check!(dl[0] == 0.0 && dl[1] == 0.0 && dl[2] == (sp::dot3(fi, fi) as %s), \"lh: view direction goes to +Z\");") % (
-            T, t, w, t, t, t, T, " && ".join("l[%d] == r[%d]" % (i, i) for i in range(nn)), T, t)
-        obs.append(Ob("c11_%s_%s_look_to_maps" % (config, T.lower()), PROP, body, fn="%s::look_to_*" % T, kind="lemma", solver="cadical", stubs=["sse", "uf_sqrt%d" % w], cls="lattice", clauses=5, tier=tr,
-                      desc="%s::look_to_rh/lh: eye -> origin, dir -> -Z (rh) / +Z (lh), up -> +Y half of the YZ plane, lh(dir) == rh(-dir); exact on the lattice" % T))
+        common = ("    let m = <%s>::look_to_rh(eye, f, up).to_cols_array(); let k = (1.0 as %s) / crate::uf::sqrt_f%d(sp::dot3(sr, sr) as %s); let ur = sp::cross3(sr, fi);\n"
+                  "    let e = |i: usize, j: usize| m[j * %d + i];\n") % (T, t, w, t, row)
+        for j in range(3):
+            body = head + common + "    check!(e(0, %d) == (sr[%d] as %s) * k && e(1, %d) == (ur[%d] as %s) * k && e(2, %d) == -(fi[%d] as %s), \"column %d holds (s, u, -f) components\");" % (j, j, t, j, j, t, j, j, t, j)
+            obs.append(Ob("c11_%s_%s_look_to_rh_c%d" % (config, T.lower(), j), PROP, body, fn="%s::look_to_rh" % T, kind="lemma", solver="cadical", stubs=["sse", "uf_sqrt%d" % w], cls="lattice", tier=tr,
+                          desc="%s::look_to_rh on lattice eye/dir/up, column %d: rows are exactly (s, u, -f) with s = (f x up)/|f x up|, u = s x f; sqrt uninterpreted over powers of two (pinned on exact points)" % (T, j)))
+        body = head + common + "    check!(e(0, 3) == -(sp::dot3(ei, sr) as %s) * k && e(1, 3) == -(sp::dot3(ei, ur) as %s) * k && e(2, 3) == (sp::dot3(ei, fi) as %s), \"translation (-eye.s, -eye.u, eye.f)\");" % (t, t, t)
+        obs.append(Ob("c11_%s_%s_look_to_rh_t" % (config, T.lower()), PROP, body, fn="%s::look_to_rh" % T, kind="lemma", solver="cadical", stubs=["sse", "uf_sqrt%d" % w], cls="lattice", tier=tr,
+                      desc="%s::look_to_rh translation is (-eye.s, -eye.u, eye.f), exact on the lattice" % T))
+        pre2 = head + "    let a = <%s>::look_to_rh(eye, f, up); let k = (1.0 as %s) / crate::uf::sqrt_f%d(sp::dot3(sr, sr) as %s);\n" % (T, t, w, t)
+        maps = [("origin", "let o = a.transform_point3(eye).to_array(); check!(o[0] == 0.0 && o[1] == 0.0 && o[2] == 0.0, \"eye goes to the origin\");", "eye -> origin"),
+                ("dir", "let d = a.transform_vector3(f).to_array(); check!(d[0] == 0.0 && d[1] == 0.0 && d[2] == -(sp::dot3(fi, fi) as %s), \"view direction goes to -Z\");" % t, "dir -> -Z"),
+                ("up", "let y = a.transform_vector3(up).to_array(); check!(y[0] == 0.0 && y[1] == (sp::dot3(sr, sr) as %s) * k && y[1] > 0.0, \"up hint goes to the +Y half of the YZ plane\");" % t, "up -> +Y half-plane"),
+                ("lh", "let l = <%s>::look_to_lh(eye, -f, up).to_cols_array(); let r = a.to_cols_array(); check!(%s, \"look_to_lh(dir) == look_to_rh(-dir)\"); let dl = <%s>::look_to_lh(eye, f, up).transform_vector3(f).to_array(); check!(dl[0] == 0.0 && dl[1] == 0.0 && dl[2] == (sp::dot3(fi, fi) as %s), \"lh: view direction goes to +Z\");" % (
+                    T, " && ".join("l[%d] == r[%d]" % (i, i) for i in range(nn)), T, t), "lh(dir) == rh(-dir); lh: dir -> +Z")]
+        for (nm, chk, d_) in maps:
+            obs.append(Ob("c11_%s_%s_look_to_%s" % (config, T.lower(), nm), PROP, pre2 + "    " + chk, fn="%s::look_to_*" % T, kind="lemma", solver="cadical", stubs=["sse", "uf_sqrt%d" % w], cls="lattice", tier=tr,
+                          desc="%s::look_to: %s, exact on the lattice" % (T, d_)))
     if sse:
         obs.append(Ob("c11_sse2_canary_perspective_rh_depth", PROP,
                       'unsafe { crate::uf::SINCOS32_MODE = crate::uf::POW2; } let fov: f32 = vk::any(); let m = Mat4::perspective_rh(fov, 1.0, 1.0, 2.0); let c = (m * Vec4::new(0.0, 0.0, -1.0, 1.0)).to_array(); check!(c[2] / c[3] == -1.0, "rh near depth -1");',
